@@ -62,6 +62,9 @@ const POSITIONS: &[(&str, &str)] = &[
     ("tablekey", "local t = {[ § ] = 1}\n"),
     ("index", "local y = t[ § ]\n"),
     ("method", "o:m §\n"),
+    ("index_par", "local y = t[(§)]\n"),
+    ("tablekey_par", "local t = {[(§)] = 1}\n"),
+    ("callarg_par", "f((§))\n"),
 ];
 
 pub fn process(case: &Value) -> Vec<Value> {
